@@ -89,6 +89,12 @@ def draw_common(rng, nv=None, compaction=None, small_batches=None):
         # longer than connectionTimeout, during which the receiver sends nothing and the sender drops
         # the connection (noted in DESIGN.md as an observation); keep the simulated machine fast enough
         cfg['cpu_cost'] = min(cfg['cpu_cost'], 1e-4)
+    if conf['appendEntriesBatchSizeBytes'] < 1024:
+        # every entry of some size is chunked into several messages, a lagging follower gets the whole tail again
+        # after every reset reply: on the slowest simulated machines (5e-4 s per clock read) a follower needs more
+        # than a heartbeat period of CPU time for one heartbeat's traffic and never catches up - overload, not a
+        # subject of the liveness properties (premise "timely ticks")
+        cfg['cpu_cost'] = min(cfg['cpu_cost'], 1e-4)
     if conf['appendEntriesBatchSizeBytes'] < 30:
         # one-byte chunks: every entry becomes ~100 messages of ~90 bytes to every follower.  "Timely ticks"
         # and links that carry the traffic are premises of the liveness properties, not their subject
@@ -99,6 +105,21 @@ def draw_common(rng, nv=None, compaction=None, small_batches=None):
         # tiny socket buffers only together with prompt delivery (see DESIGN 2.7)
         cfg['sched']['w_dlv'] = 12.0
         cfg['sched']['dlv_sizes'] = [0, 0, 0, 0, 0, 1, 64]
+    return cfg
+
+
+def finalize_cfg(cfg):
+    """Cross-constraints between drawn parameters, applied after a spec's draw() (specs change batch sizes after
+    draw_common): the simulated machine and links must be able to carry the traffic the configuration produces -
+    premises ("timely ticks", connectivity) of the liveness properties, not their subject."""
+    conf = cfg.get('conf') or {}
+    B = conf.get('appendEntriesBatchSizeBytes', 1 << 16)
+    if 'cpu_cost' in cfg:
+        if B < 1024 or conf.get('logCompactionBatchSize', 1 << 16) < 64:
+            cfg['cpu_cost'] = min(cfg['cpu_cost'], 1e-4)
+        if B < 30:
+            cfg['cpu_cost'] = min(cfg['cpu_cost'], 2e-5)
+            cfg['cap'] = max(cfg.get('cap', 1 << 16), 1 << 16)
     return cfg
 
 
